@@ -6,6 +6,7 @@ import (
 	"io"
 	"net"
 	"runtime"
+	"strings"
 	"sync"
 	"testing/synctest"
 	"time"
@@ -359,4 +360,32 @@ func DumpGoroutines(tag string) {
 	buf := make([]byte, 1<<20)
 	n := runtime.Stack(buf, true)
 	fmt.Printf("==== goroutines at %s\n%s\n", tag, buf[:n])
+}
+
+// BubbleGoroutines returns the header and top frames of every goroutine that
+// belongs to a synctest bubble, except the calling one.
+func BubbleGoroutines() []string {
+	buf := make([]byte, 4<<20)
+	n := runtime.Stack(buf, true)
+	var out []string
+	first := true
+	for _, g := range strings.Split(string(buf[:n]), "\n\n") {
+		if first { // the calling goroutine comes first
+			first = false
+			continue
+		}
+		lines := strings.Split(g, "\n")
+		if len(lines) == 0 || !strings.Contains(lines[0], "synctest bubble") {
+			continue
+		}
+		if strings.Contains(g, "internal/synctest.Run") || strings.Contains(g, "synctest.testingSynctestTest") {
+			continue // the bubble's own bookkeeping goroutines
+		}
+		desc := lines[0]
+		for i := 1; i < len(lines) && i < 8; i += 2 {
+			desc += " | " + strings.TrimSpace(lines[i])
+		}
+		out = append(out, desc)
+	}
+	return out
 }
